@@ -34,6 +34,10 @@ def build_model(spec, cfgspec, json_bytes, flavor, use_cache):
     cdir = os.path.join(CACHE_DIR, key)
     done = os.path.join(cdir, 'done.json')
     if os.path.exists(done):
+        try:
+            os.utime(cdir)
+        except OSError:
+            pass
         mb = worldA.ModelBuild(cdir, spec, cfgspec, flavor)
         mb.files = files
         mb.static_facts = json.load(open(done))['static_facts']
@@ -53,6 +57,19 @@ def build_model(spec, cfgspec, json_bytes, flavor, use_cache):
     except OSError:
         pass
     return mb, False
+
+
+def prune_cache(keep=260, trigger=360):
+    """The content-addressed cache only grows (every harness or generator change yields new keys): drop the oldest."""
+    try:
+        entries = [os.path.join(CACHE_DIR, d) for d in os.listdir(CACHE_DIR)]
+    except OSError:
+        return
+    if len(entries) <= trigger:
+        return
+    entries.sort(key=lambda d: os.path.getmtime(d))
+    for d in entries[:len(entries) - keep]:
+        shutil.rmtree(d, ignore_errors=True)
 
 
 def release_model(mb):
@@ -269,8 +286,11 @@ def run_check(prop, profile, level, tier, seed, n_models, runs_per_model, rule, 
     rep = engine.Report(prop, level, tier, seed)
     rep.assumptions = assumptions
     worldA.ensure_runtime(PROFILE_FLAVOR(profile))
+    prune_cache()
+    # scratch trees (mutants, seeded changes) never pollute the cache
+    use_cache = tier == 'quick' and not os.environ.get('VERIF_REPO_SRC') and os.environ.get('VERIF_NO_CACHE') != '1'
     jobs_ = [{'prop': prop, 'seed': seed, 'tier': tier, 'index': i, 'profile': profile, 'runs_per_model': runs_per_model,
-              'use_cache': tier == 'quick'} for i in range(n_models)]
+              'use_cache': use_cache} for i in range(n_models)]
     results = engine.run_parallel(model_worker, jobs_)
     digests, nontrivial, ilh = set(), set(), set()
     total_runs = total_steps = 0
